@@ -3,7 +3,8 @@ traces, known findings, evidence.  Python 3 standard library only."""
 import json, os, re, shutil, subprocess, sys, time, hashlib
 
 ROOT = os.path.dirname(os.path.dirname(os.path.abspath(__file__)))
-WORK = os.path.join(ROOT, ".work")
+# scratch evaluations (seeded changes, mutants) run side by side with their own work directory
+WORK = os.environ.get("VERIF_WORK_DIR") or os.path.join(ROOT, ".work")
 # VERIF_HARNESS_DIR: a scratch copy of harness/ whose path dependencies point at a scratch worktree of the
 # repository (used only to evaluate seeded changes without touching /repo; registered checks never set it)
 HARNESS = os.environ.get("VERIF_HARNESS_DIR") or os.path.join(ROOT, "harness")
